@@ -102,20 +102,16 @@ func (round *round1) Update() (bool, *tss.Error) {
 		}
 		round.oldOK[j] = true
 
-		if round.temp.dgRound1Messages[0] == nil {
-			ret = false
-			continue
-		}
-		// save the eddsa pub received from the old committee
-		r1msg := round.temp.dgRound1Messages[0].Content().(*DGRound1Message)
+		// every old member announces the eddsa pub: they must all agree
+		r1msg := msg.Content().(*DGRound1Message)
 		candidate, err := r1msg.UnmarshalEDDSAPub(round.Params().EC())
 		if err != nil {
 			return false, round.WrapError(errors.New("unable to unmarshal the eddsa pub key"), msg.GetFrom())
 		}
 		if round.save.EDDSAPub != nil &&
 			!candidate.Equals(round.save.EDDSAPub) {
-			// uh oh - anomaly!
-			return false, round.WrapError(errors.New("eddsa pub key did not match what we received previously"), msg.GetFrom())
+			// uh oh - anomaly! two old members announce different keys; which of them is wrong cannot be told here
+			return false, round.WrapError(errors.New("eddsa pub key did not match what we received previously"))
 		}
 		round.save.EDDSAPub = candidate
 	}
